@@ -152,6 +152,17 @@ def _stage2(ex, ctx, p, outcome, ret, data, Wq):
     zp = [ctx.fresh("s2zp") for _ in range(m)]
     queries = []
     if ret:
+        # cheap sufficient certificate first (linear, W concrete): one facet separates the difference box
+        # D = [l2 − u1 − s, u2 − l1 − s] from the cone, max_{d∈D} w_k·d ≤ −margin
+        Wc = np.asarray(W, dtype=float)
+        sep = []
+        for k in range(Wc.shape[0]):
+            tot = sym.rv(0)
+            for j in range(m):
+                hi, lo = U2[j] - L1[j] - sv[j], L2[j] - U1[j] - sv[j]
+                tot = tot + sym.rv(Wc[k, j]) * (hi if Wc[k, j] > 0 else lo)
+            sep.append(tot <= -sym.rv(MARGIN))
+        queries.append(("returns True but one facet separates every (z, z') from the cone", zor(sep)))
         atoms = lp.linear_atoms(rect_oracle(Wq, L1, U1, L2, U2, sv, z, zp), z + zp)
         cert, _ = lp.farkas_infeasible(atoms, ctx.fresh, margin=MARGIN)
         queries.append(("returns True but no (z, z') exists [Farkas certificate]", cert))
